@@ -1241,11 +1241,6 @@ pub fn exec(req: &[String], out: &mut Out, dir: &Path) {
         out.sample(json!({"session": s.new_line, "requests": s.lines()[1..].to_vec(),
             "answers": answers.iter().map(|a| a.tokens.join(",")).collect::<Vec<_>>() }));
     }
-    // cells of the (command, phase) table that this run did not reach
-    let mut empty = 0u64;
-    for c in COMMANDS { for p in PHASES { if out.stats.get(&format!("cp.{c}.{p}")).is_none() { empty += 1; } } }
-    out.count("coverage.command_phase_cells_total", (COMMANDS.len() * PHASES.len()) as u64);
-    out.count("coverage.command_phase_cells_not_reached_in_this_run", empty);
 }
 
 pub fn run(args: &[String]) {
@@ -1257,5 +1252,12 @@ pub fn run(args: &[String]) {
     };
     let dir = a.out.clone();
     exec(&req, &mut out, &dir);
+    if a.replay.is_none() {
+        // cells of the (command, phase) table that this seeded run did not reach
+        let mut empty = 0u64;
+        for c in COMMANDS { for p in PHASES { if out.stats.get(&format!("cp.{c}.{p}")).is_none() { empty += 1; } } }
+        out.count("coverage.command_phase_cells_total", (COMMANDS.len() * PHASES.len()) as u64);
+        out.count("coverage.command_phase_cells_not_reached_in_this_run", empty);
+    }
     out.finish();
 }
